@@ -20,6 +20,8 @@ ITEMS = {
     "mod": "pub mod m { pub async fn a(deps: &impl ::core::any::Any, x: i64) -> i64 { x } pub fn b(deps: &impl ::core::any::Any) {} fn private() {} }",
     "trait": "pub trait T { async fn m(&self, a: i64) -> i64; fn n(&self); }",
     "impl": "impl TrImpl for X { fn a(deps: &impl ::core::any::Any) {} }",
+    # concrete dependency: the expansion contains a nested entrait invocation on the generated trait (two records)
+    "fnconc": "pub async fn f(deps: &Cfg, a: i64) -> i64 { a }",
 }
 BOOLS = ["no_deps", "export", "unimock", "mockall"]
 FORMS = ["absent", "bare", "true", "false"]
@@ -149,6 +151,9 @@ def enumerate_states(tier):
     for item in ("fn", "mod"):
         for i in fn_invocations(item):
             states.append(dict(i, item=item))
+    for i in fn_invocations("fn"):
+        if i["attr"].count(",") <= 2:
+            states.append(dict(i, item="fnconc"))
     for i in trait_invocations():
         states.append(dict(i, item="trait"))
     states += target_invocations()
@@ -168,6 +173,8 @@ def render(s):
     L = ["mod %s {" % key]
     if s["item"] == "impl":
         L.append("    pub struct X;")
+    if s["item"] == "fnconc":
+        L.append("    pub struct Cfg;")
     L.append("    #[::entrait::%s(%s)]" % (s["variant"], attr))
     L.append("    " + ITEMS[s["item"]])
     L.append("}")
@@ -176,6 +183,8 @@ def render(s):
 
 def is_rejection(rec):
     out = rec.get("output_tt") or []
+    if out and out[0][0] == "g" and out[0][1] == "":
+        out = out[0][2]
     idents = engine.tt_flat_idents(out[:8])
     return "compile_error" in idents
 
@@ -193,7 +202,12 @@ def evaluate(states, report, tier):
         for s, u in zip(group, us):
             units[s["key"]] = u
             recs = res[s["key"]].records
-            outputs[s["key"]] = recs[0] if len(recs) == 1 else None
+            if s["item"] == "fnconc" and len(recs) == 2:
+                # outer invocation + the nested one on the generated trait. Only the outer expansion is compared: the nested
+                # invocation's *input* depends on whether rustc could resolve the unimock attribute before it (crate feature)
+                outputs[s["key"]] = recs[0]
+            else:
+                outputs[s["key"]] = recs[0] if len(recs) == 1 else None
     # group by (item, semantic key)
     groups = {}
     for s in states:
